@@ -25,14 +25,16 @@ def rows():
         demo = f"{dw[0] if dw else '?'}/{dwo[0] if dwo else '?'}"
         suite = "yes" if m.get("suite_baseline_ok") or "930 passed" in str(m.get("suite_with_patch")) else "?"
         first = {True: "at once", False: "after strengthening", None: "?"}[m.get("first_run_caught")]
-        out.append(f"| {m['id']} | {m.get('round', '?')} | `{os.path.basename(m['files'][0])}` | {m.get('change', '')} | {m.get('needs_to_manifest', '')} | {demo} | {suite} | "
-                   f"{', '.join(caught) or '-'}{(' (not by: ' + ', '.join(missed) + ')') if missed and caught else ''} | {first} | `{key[:110]}` |")
+        on = m.get("evaluated_on", m.get("base", "?")) + (" (*)" if m.get("evaluated_on_note") else "")
+        extra = f" {m['head_note']}" if m.get("head_note") else ""
+        out.append(f"| {m['id']} | {m.get('round', '?')} | `{os.path.basename(m['files'][0])}` | {m.get('change', '')} | {m.get('needs_to_manifest', '')} | {demo} | {suite} | {on} | "
+                   f"{', '.join(caught) or '-'}{(' (not by: ' + ', '.join(missed) + ')') if missed and caught else ''}{extra} | {first} | `{key[:110]}` |")
     return out
 
 
 def main():
-    hdr = ["| id | round | file | change | needs, to manifest | demo exit with/without | 930 baseline tests pass | caught by (quick tier, final checks) | caught | first violation key |",
-           "|---|---|---|---|---|---|---|---|---|---|"]
+    hdr = ["| id | round | file | change | needs, to manifest | demo exit with/without | 930 baseline tests pass | evaluated on /repo commit | caught by (quick tier, final checks) | caught | first violation key |",
+           "|---|---|---|---|---|---|---|---|---|---|---|"]
     text = "\n".join(hdr + rows())
     if "--write" in sys.argv:
         p = os.path.join(VERIF, "DESIGN.md")
